@@ -129,6 +129,124 @@ package gocql
 //@   ensures !soft_panic() ==> len(f.traceID) == 16 && f.buf == old(f.buf[16:])
 
 // ---------------------------------------------------------------------------
+// frame.go: header and message parsers. Inputs are arbitrary bytes; every
+// run-time panic site is an obligation (C05); protocol errors are soft panics
+// (panic(error)) caught by parseFrame's recover.
+// ---------------------------------------------------------------------------
+
+// v1/v2 header: version flags stream(1) opcode length(4); v3+: stream(2).
+//@ func readHeader
+//@   props C01 C04 C05
+//@   requires len(p) >= 9
+//@   ensures err == nil && p[0]&0x7f > 2 ==> head.version == protoVersion(p[0]) && head.flags == p[1] && head.stream == int(int16(be16(p, 2))) && head.op == frameOp(p[4]) && head.length == int(int32(be32(p, 5)))
+//@   ensures err == nil && p[0]&0x7f <= 2 ==> head.version == protoVersion(p[0]) && head.flags == p[1] && head.stream == int(int8(p[2])) && head.op == frameOp(p[3]) && head.length == int(int32(be32(p, 4)))
+//@   ensures err == nil ==> 1 <= p[0]&0x7f && p[0]&0x7f <= 5
+
+//@ func (f *framer) readFrame
+//@   props C04 C05 C18
+//@   requires head != nil
+//@   assume ErrFrameTooBig != nil
+//@   alloc_bound 256*1024*1024
+//@   ensures result == nil ==> f.header == head && old(head.length) >= 0 && old(head.length) <= 256*1024*1024
+//@   ensures[C18] result == nil && old(head.flags)&0x01 == 0 ==> len(f.buf) == old(head.length)
+//@   ensures[C18] old(head.flags)&0x01 != 0 && old(f.compres) == nil ==> result != nil
+
+//@ func (f *framer) parseReadyFrame
+//@   props C04 C05
+//@   requires f.header != nil
+
+//@ func (f *framer) parseSupportedFrame
+//@   props C04 C05
+//@   requires f.header != nil
+//@   may_soft_panic
+
+//@ func (f *framer) readTypeInfo
+//@   props C04 C05
+//@   modifies f.buf
+//@   may_soft_panic
+//@   alloc_bound len(f.buf)
+//@   ensures !soft_panic() ==> len(f.buf) <= old(len(f.buf)) - 2 && base(f.buf) == old(base(f.buf))
+//@   loop 0: invariant 0 <= i && i <= int(n) && len(tuple.Elems) == int(n) && len(f.buf) <= old(len(f.buf)) - 2 && base(f.buf) == old(base(f.buf))
+//@   loop 1: invariant 0 <= i && i <= int(n) && len(udt.Elements) == int(n) && len(f.buf) <= old(len(f.buf)) - 2 && base(f.buf) == old(base(f.buf))
+
+//@ func (f *framer) readCol
+//@   props C04 C05
+//@   requires col != nil && meta != nil
+//@   modifies f.buf, *col, meta.actualColCount
+//@   may_soft_panic
+//@   ensures !soft_panic() ==> len(f.buf) <= old(len(f.buf)) - 4 && base(f.buf) == old(base(f.buf))
+
+//@ func (f *framer) parsePreparedMetadata
+//@   props C04 C05
+//@   may_soft_panic
+//@   alloc_bound len(f.buf)
+//@   loop 0: invariant 0 <= i && len(pkeys) == pkeyCount
+//@   loop 1: invariant 0 <= i && len(cols) == meta.colCount && meta.colCount < 1000
+//@   loop 2: invariant 0 <= i
+
+//@ func (f *framer) parseResultMetadata
+//@   props C04 C05
+//@   may_soft_panic
+//@   alloc_bound len(f.buf)
+//@   loop 0: invariant 0 <= i && len(cols) == meta.colCount && meta.colCount < 1000
+//@   loop 1: invariant 0 <= i
+
+//@ func (f *framer) parseResultRows
+//@   props C04 C05
+//@   may_soft_panic
+
+//@ func (f *framer) parseResultSetKeyspace
+//@   props C04 C05
+//@   requires f.header != nil
+//@   may_soft_panic
+
+//@ func (f *framer) parseResultPrepared
+//@   props C04 C05
+//@   requires f.header != nil
+//@   may_soft_panic
+
+//@ func (f *framer) parseResultSchemaChange
+//@   props C04 C05
+//@   requires f.header != nil
+//@   may_soft_panic
+
+//@ func (f *framer) parseResultFrame
+//@   props C04 C05
+//@   requires f.header != nil
+//@   may_soft_panic
+
+//@ func (f *framer) parseErrorFrame
+//@   props C04 C05
+//@   requires f.header != nil
+//@   may_soft_panic
+
+//@ func (f *framer) parseAuthenticateFrame
+//@   props C04 C05
+//@   requires f.header != nil
+//@   may_soft_panic
+
+//@ func (f *framer) parseAuthSuccessFrame
+//@   props C04 C05
+//@   requires f.header != nil
+//@   may_soft_panic
+
+//@ func (f *framer) parseAuthChallengeFrame
+//@   props C04 C05
+//@   requires f.header != nil
+//@   may_soft_panic
+
+//@ func (f *framer) parseEventFrame
+//@   props C04 C05
+//@   requires f.header != nil
+//@   may_soft_panic
+
+// parseFrame is the containment point: soft panics become the returned error,
+// run-time panics would be re-panicked (so none may be reachable below it).
+//@ func (f *framer) parseFrame
+//@   props C04 C05
+//@   requires f.header != nil
+
+// ---------------------------------------------------------------------------
 // uuid.go (RFC 4122; oracle in /verif/spec/bv.smt2 blocks uuid, hex)
 // ---------------------------------------------------------------------------
 
